@@ -173,3 +173,16 @@ fn test_chains_below_the_limit() {
     let filters = format!("'a'{}", "|upper".repeat(1000));
     assert_eq!(render(&format!("{{{{ {} }}}}", filters)).unwrap(), "A");
 }
+
+#[test]
+fn test_format_keys_are_not_restricted_to_ascii() {
+    assert_eq!(
+        render("{{ '%(é)s|%(日本)d'|format(**{'é': 'x', '日本': 2}) }}").unwrap(),
+        "x|2"
+    );
+    assert_eq!(eval_err("'%(é)s'|format(x=1)"), ErrorKind::InvalidOperation);
+    assert_eq!(eval_err("'%(é'|format(x=1)"), ErrorKind::InvalidOperation);
+    let args = [Value::from(1)];
+    assert!(format(FormatStyle::StrFormat, "{0[é]}", &args).is_err());
+    assert!(format(FormatStyle::StrFormat, "{0[é}", &args).is_err());
+}
